@@ -273,8 +273,9 @@ def judge(case_argv, res, ctors, labels=None):
         info["fault_index"] = eof_reads[0]
     # ---- clause a: clean exit ----
     if res["aborted"]:
-        vio.append(violation(PROP, "a", "no-termination", "calculator still reading after %d reads%s" %
-                             (res["reads"], " (after end of input)" if info["eof"] else "")))
+        vio.append(violation(PROP, "a", "no-termination", "calculator %s%s" %
+                             (res.get("abort_reason") or ("still reading after %d reads" % res["reads"]),
+                              " (after end of input)" if info["eof"] else "")))
         return vio, info
     if res["exc"] is not None:
         vio.append(violation(PROP, "a", "exception-escapes:%s" % res["exc"][0],
